@@ -627,6 +627,20 @@ def obligations(tier):
   gp.id = 'C06/contact.get/geom_world_pose'
   obs.append(gp)
 
+  def _sv():
+    from brax.positional import pipeline
+    from brax.io import mjcf
+    xml = ('<mujoco><option timestep="0.004"/><worldbody><geom name="floor" type="plane" size="5 5 0.1"/>'
+           '<body name="a" pos="0 0 0.09" quat="0.8 0.6 0 0"><freejoint/><geom type="capsule" size="0.08 0.15"/></body></worldbody></mujoco>')
+    sys = mjcf.loads(xml)
+
+    def f(q_, qd_):
+      st = pipeline.step(sys, pipeline.init(sys, q_, qd_), jp.zeros(0))
+      return st.x.pos, st.x.rot, st.xd.vel
+    return f, [np.asarray(sys.init_q, dtype=float), np.zeros(6)]
+  from verif.contracts.common import engine_selfcheck
+  obs.append(engine_selfcheck('C06/engine/self_validation[positional step with contact]', 'brax.positional.pipeline:init,step (incl. mjx.collision)', _sv, budget=900))
+
   def canary(A):
     # limits inert WITHOUT the precondition (coordinate may be outside the range) must be refuted
     from verif.engine.opaque import cut
